@@ -18,6 +18,7 @@ func (p *parser) parseFile() {
 
 	// X64 强制采用 intel 语法
 	if p.cpu == abi.X64Unix || p.cpu == abi.X64Windows {
+	header:
 		for {
 			if p.err != nil {
 				return
@@ -38,6 +39,11 @@ func (p *parser) parseFile() {
 				}
 				p.acceptToken(token.GAS_X64_INTEL_SYNTAX)
 				p.acceptToken(token.GAS_X64_NOPREFIX)
+				break header
+
+			default:
+				// the header ends at the first token that is neither a comment nor the syntax directive
+				break header
 			}
 		}
 		if p.prog.IntelSyntax == nil {
